@@ -265,7 +265,7 @@ func (n *sx) specForall() (string, *sx, bool) {
 
 type instCtx struct {
 	perVar map[string][]*sx // matching-based instances per quantified variable (tier 3)
-	all    []*sx // every candidate term: used for small quantified facts (frames, ranges)
+	all    []*sx            // every candidate term: used for small quantified facts (frames, ranges)
 	terms  []*sx
 	budget int
 	weaken bool
